@@ -422,7 +422,7 @@ func escapersRule(r *Run, rule string) {
 		r.Lost(rule, "SSA form of htmlEscape")
 		return
 	}
-	paths, ok := walkPaths(fn, nil, func(caller, callee *ssa.Function) bool { return callee.Pkg == fn.Pkg })
+	paths, ok := walkPaths(fn, nil, func(caller, callee *ssa.Function) bool { return pkgOf(callee) == fn.Pkg })
 	if !ok {
 		r.Lost(rule, "paths of htmlEscape")
 		return
@@ -626,7 +626,7 @@ func truncateRule(r *Run) {
 			for _, ins := range b.Instrs {
 				switch x := ins.(type) {
 				case *ssa.Call:
-					if g := x.Call.StaticCallee(); g != nil && g.Pkg == fnS.Pkg && len(g.Blocks) > 0 && !seen[g] && g.Object() != nil && !g.Object().Exported() {
+					if g := x.Call.StaticCallee(); g != nil && pkgOf(g) == fnS.Pkg && len(g.Blocks) > 0 && !seen[g] && fnObject(g) != nil && !fnObject(g).Exported() {
 						seen[g] = true
 						fns = append(fns, g)
 					}
